@@ -52,6 +52,7 @@ def run(p: Project, tier: str) -> Result:
     r.rule('C20.R5', 'one-shot conveyor events are succeeded at most once per arming', 3)
     r.rule('C20.R6', 'yielded values are events', 40)
     r.rule('C20.R7', 'no attribute access on None on the first iteration of a node process', 4)
+    r.rule('C20.R8', 'a wake-up event found triggered is re-armed before the process waits again', 5)
     r.not_decided = ['D15: _get_belt_pattern raises RuntimeError for some valid real-valued timings (run-time values)',
                      'D16: timer loops with delay 0 (fleet delay, slotted belt delay, blocking source) spin in zero time (run-time values)',
                      'exceptions raised inside SimPy itself']
@@ -63,6 +64,7 @@ def run(p: Project, tier: str) -> Result:
     check_progress(p, reach, r)
     check_validations(p, r)
     check_one_shot(p, r)
+    check_rearm(p, r)
     check_yields(p, reach, r)
     check_none_deref(p, r)
     return r
@@ -482,6 +484,111 @@ def check_one_shot(p, r):
                     r.fail('C20.R5', key, f'`{tgt}.succeed()` is reachable twice before the event is re-armed (no `not {tgt}.triggered` guard, no fresh event): '
                                           f'two calls of {mname}() in one instant raise RuntimeError("already triggered")' + (f' [{entry[1]}]' if entry else ''),
                            src(fi.module), e.line, rec['pa'].describe())
+
+
+# ------------------------------------------------------------------------------------------- R8
+def value_path(v):
+    """'self.a.b' for attribute-read values"""
+    if v is None:
+        return None
+    if v[0] == 'self':
+        return 'self.' + v[1]
+    if v[0] == 'attr':
+        b = value_path(v[1])
+        return None if b is None else b + '.' + v[2]
+    return None
+
+
+def is_armed(p, fi, tgt):
+    """`tgt` ('self.X' / 'self.a.X') is an event attribute: assigned env.event() in its owner's hierarchy or in function fi"""
+    owner = (fi.module, fi.cls)
+    parts = tgt.split('.')
+    attr = parts[-1]
+    if len(parts) == 3:
+        ks = p.attr_class(owner, parts[1])
+        owner = ks[0] if ks else None
+    elif len(parts) != 2:
+        return False
+    armed = owner is not None and any(isinstance(v, ast.Call) and isinstance(v.func, ast.Attribute) and v.func.attr == 'event'
+                                      for _, v, _ in p.self_attr_sites(owner).get(attr, []))
+    return armed or any(isinstance(n, ast.Assign) and any(ast.unparse(t_) == tgt for t_ in n.targets) and isinstance(n.value, ast.Call)
+                        and isinstance(n.value.func, ast.Attribute) and n.value.func.attr == 'event' for n in walk_no_nested(fi.node))
+
+
+def check_rearm(p, r):
+    """A process that finds one of its wake-up events triggered re-arms it (fresh env.event()) before it waits again."""
+    from .. import storewalk
+    jobs = []
+    for ci in tables.edge_classes(p):
+        b = ci.methods.get('behaviour')
+        if b is not None and b.is_generator:
+            ex = paths.Explorer(p, ci.key, tracked=set(), atomic=set(p.methods(ci.key)), unroll=1, track_attrs=True, interrupt_edges=False)
+            jobs.append((b, ex.paths(b)))
+    for w in storewalk.walks(p, assume_inv=('I1',)):
+        for root in w.store.process_roots:
+            fi = w.root_funcs[root]
+            if fi.is_generator and any(isinstance(n, ast.While) and isinstance(n.test, ast.Constant) for n in fi.node.body):
+                jobs.append((fi, w.roots[root]))
+    seen = set()
+    for fi, ps in jobs:
+        if fi.key in seen:
+            continue
+        seen.add(fi.key)
+        sites = {}
+        for pa in ps:
+            if pa.raises:
+                continue
+            evs = pa.events
+            # a path that takes `x is self.T` although x was just assigned another armed attribute is infeasible
+            # (each armed attribute holds its own env.event() object)
+            infeasible = False
+            for i, e in enumerate(evs):
+                if e.kind == 'cond' and not e.d.get('synthetic') and e.polarity is True and ' is self.' in e.text and not e.text.startswith('not'):
+                    lhs, t_ = e.text.split(' is ', 1)
+                    last = next((x for x in reversed(evs[:i]) if x.kind == 'setattr' and x.target == lhs), None)
+                    if last is not None and value_path(last.value) not in (None, t_):
+                        infeasible = True
+                # `if x:` is false although x was just assigned an event object (simpy events are always truthy)
+                if e.kind == 'cond' and not e.d.get('synthetic') and e.polarity is False and e.text.startswith('self.') and '(' not in e.text and ' ' not in e.text:
+                    last = next((x for x in reversed(evs[:i]) if x.kind == 'setattr' and x.target == e.text), None)
+                    vp = value_path(last.value) if last is not None else None
+                    if vp is not None and is_armed(p, fi, vp):
+                        infeasible = True
+            if infeasible:
+                continue
+            for i, e in enumerate(evs):
+                tgt = None
+                if e.kind == 'cond' and not e.d.get('synthetic') and e.polarity is True:
+                    t = e.text
+                    if t.endswith('.triggered') and t.startswith('self.'):
+                        tgt = t[:-len('.triggered')]
+                    elif ' is self.' in t and not t.startswith('not'):
+                        lhs, tgt = t.split(' is ', 1)
+                        # `chosen is T` is infeasible when chosen was just assigned another armed attribute (distinct env.event() objects)
+                        last = next((x for x in reversed(evs[:i]) if x.kind == 'setattr' and x.target == lhs), None)
+                        if last is not None and value_path(last.value) not in (None, tgt):
+                            tgt = None
+                elif e.kind == 'yield' and e.text.startswith('self.') and e.cls == 'event' and '(' not in e.text:
+                    tgt = e.text
+                if tgt is None or not tgt.startswith('self.'):
+                    continue
+                # only event attributes (armed with env.event() somewhere)
+                if not is_armed(p, fi, tgt):
+                    continue
+                key = f'{fi.key}::re-arms({tgt})'
+                rec = sites.setdefault(key, {'ok': True, 'e': e, 'pa': pa})
+                rearmed = any(x.kind == 'setattr' and x.target == tgt and x.value[0] == 'newevent' for x in evs[i:])
+                if not rearmed and rec['ok']:
+                    rec.update(ok=False, pa=pa, e=e)
+        for key, rec in sorted(sites.items()):
+            e = rec['e']
+            r.analysed_functions.add(fi.key)
+            if rec['ok']:
+                r.ok('C20.R8', key, 're-armed with a fresh event on every path that saw it triggered', src(fi.module), e.line)
+            else:
+                r.fail('C20.R8', key, 'the process finds this wake-up event triggered but goes back to waiting without installing a fresh env.event(): '
+                                      'the next wait returns at once for ever (zero-time loop) and the next succeed() raises "already triggered"',
+                       src(fi.module), e.line, rec['pa'].describe())
 
 
 # ------------------------------------------------------------------------------------------- R6
